@@ -349,11 +349,11 @@ def predicates(c, io):
             out.append(("erfi:accuracy", f"Erfi({x!r}) = {v[0]!r}, reference {float(ref)!r}: relative error {float(abs(Decimal(v[0]) - ref) / abs(ref)):.3g} > 1e-6"))
     elif op == "inverf":
         p = float.fromhex(t[1])
-        if abs(p) >= 1 and p != 1.0:
-            if not ex: out.append(("inverf:guard", f"Inv_Erf({p!r}) with |p| >= 1 returned {io}"))
+        if abs(p) >= 1 and abs(p) != 1.0:
+            if not ex: out.append(("inverf:guard", f"Inv_Erf({p!r}) with |p| > 1 returned {io}"))
         elif ex: out.append(("inverf:exit", f"Inv_Erf({p!r}) terminated the process"))
-        elif p == 1.0:
-            if v[0] != 10.0: out.append(("inverf:one", f"Inv_Erf(1) = {v[0]!r}"))
+        elif abs(p) == 1.0:
+            if v[0] != 10.0 * p: out.append(("inverf:one", f"Inv_Erf({p!r}) = {v[0]!r}, expected {10.0 * p!r}"))
         else:
             ref = erfinv_ref(p)
             if abs(p) > 1 - 1e-12:
